@@ -286,6 +286,26 @@ def _sweep_inputs(ctx):
     ctx.require("R11.sweep", n, 1, "calls of the sweep from the timer callable")
 
 
+def _has_listener(c):
+    """the path condition c holds when the listener table is NOT empty"""
+    t, b, _s = c
+    pos = True
+    while t[0] in ("not", "truth"):
+        if t[0] == "not":
+            pos = not pos
+        t = t[1]
+    if t[0] == "reg":
+        return b == pos
+    if t[0] == "cmp" and t[2][0] == "call" and t[2][1] == "len" and t[3] == ("const", 0) \
+            and t[1] in ("==", ">", "!="):
+        nonempty_truth = {"==": False, ">": True, "!=": True}[t[1]]
+        return b == (nonempty_truth if pos else not nonempty_truth)
+    if t[0] == "cmp" and t[2][0] == "call" and t[2][1] == "len" and t[3] == ("const", 1) \
+            and t[1] == ">=":
+        return b == pos
+    return False
+
+
 def _durable(ctx):
     from . import shared
     shared.r_durable(ctx, "R11.durable", ("chan", "usage"),
@@ -383,7 +403,9 @@ def _regdep(ctx):
                 (x["k"] == "commit" and x.get("was_dirty")) or x["k"] in ("send", "raise")
             if not obs:
                 continue
-            scoped = any(mentions(c[0], is_listeners_reg) for c in x["pc"][base_pc_len:])
+            # decided "this mailbox has a listener" (not merely tested)
+            scoped = any(mentions(c[0], is_listeners_reg) and _has_listener(c)
+                         for c in x["pc"][base_pc_len:])
             if not scoped:
                 what = construct_of(x) if x["k"] != "send" else "send(%s)" % frame_type(x)
                 ctx.ob("R11.regdep", "%s inside a loop over %s.%s" % (what, r[0], r[1]),
